@@ -23,6 +23,7 @@ META = {
 META['level_text'] += " R7 (below the Driver trait): RealDriver reports Busy only on the reader's Err(Sys(EAGAIN)), and the two readers return no error other than the read() call's own."
 META["level_note"] = "Trusted: rustc MIR, tmfacts, the path walker. The kernel's edge-trigger semantics are outside the program; the mapper's own outputs are C01..C09/C19."
 META["technique"] += '; error-provenance rule below the Driver trait (Busy only on EAGAIN from read())'
+META['level_text'] += ' R10: open_device opens both readers with nonblock=true and that flag means O_NONBLOCK (the read-until-Busy protocol needs reads that return).'
 # --- end additions
 
 
@@ -334,3 +335,38 @@ def run(ctx):
         cs = callers.get(rd, set())
         extra = sorted(c for c in cs if c not in allowed and not c.startswith("monitor") and "exclusion" not in c and not c.startswith("dev_input_rw::do_exclusion_loop"))
         ck.ob("C10-R9", rd, "read-only-by-its-Driver-adapter(and-the-stand-alone-monitor-command)", not extra, detail=str(sorted(cs)))
+
+    # ---- R10 the loop's "read until Busy, then poll again" protocol needs reads that return instead of waiting: both
+    # readers are opened O_NONBLOCK by open_device (a blocking read would park the loop inside next_keyboard/next_tablet
+    # after the last pending event -- no poll, no timer tick, no tablet event until the next key)
+    od = ctx.body("remapping_loop::open_device")
+    n_open = 0
+    for opener in ("dev_input_rw::DevInputReader::open", "tablet_mode_switch_reader::TabletModeSwitchReader::open"):
+        # (the call may sit in a closure of open_device:  path.as_ref().map(|p| Reader::open(p, true)) )
+        calls = [(od, i, t) for i, name, t in od.calls() if name == opener]
+        for cb in ctx.closures_of(od.path):
+            calls += [(cb, i, t) for i, name, t in cb.calls() if name == opener]
+        for wb_, i, t in calls:
+            n_open += 1
+            last = mir.Evaluator(wb_, None).operand(t["args"][-1])
+            ck.ob("C10-R10", od.path, "opens-%s-non-blocking" % opener.rsplit("::", 2)[-2], mir.const_int(last) == 1, site=t["span"]["line"],
+                  detail=None if mir.const_int(last) == 1 else "nonblock argument is %s" % show(last)[:40])
+        ob = ctx.body(opener)
+        nb = None
+        for j in range(1, ob.argc + 1):
+            if ob.dbg.get(j) == "nonblock" or (ob.ltypes.get(j) == "bool" and j == ob.argc):
+                nb = T("param", j, ob.dbg.get(j, ""))
+        seen = {}
+        for p in mir.walk_function(ob):
+            opens = [e for e in p.events if e.kind == "call" and e.a.endswith("fcntl::open")]
+            if not opens:
+                continue
+            g = [e.b for e in p.events if e.kind == "guard" and e.a == nb]
+            flags = show(opens[0].b[1]) if len(opens[0].b) > 1 else ""
+            if g:
+                seen[g[0]] = "O_NONBLOCK" in flags or "2048" in flags
+            elif nb is None:
+                seen[True] = "O_NONBLOCK" in flags
+        ck.ob("C10-R10", opener, "nonblock=true-means-O_NONBLOCK", seen.get(True) is True, detail=str(seen))
+    ck.floor("C10-R10", "reader-open-sites-in-open_device", n_open, 2)
+
